@@ -64,6 +64,7 @@ import (
 	"strings"
 	"sync"
 	"sync/atomic"
+	"syscall"
 	"time"
 
 	"layeh.com/radius"
@@ -229,7 +230,10 @@ type c08obs struct {
 	class, pkt, first, verbatim, resends, prompt, silent, goroutines, fds string
 	// the raw observation behind `resends` (see the head of the file)
 	arr, end string
-	retryMs  int
+	// t0Ms: the instant the Dialer's Control hook returned (whole ms since the call began; 0 if it never ran): the
+	// socket exists, nothing has been written yet - an origin that is not after the model's t0
+	t0Ms    int
+	retryMs int
 	// timedBad: the numbers violate the model's upper bounds as the Lean driver will evaluate them (same formula, same
 	// allowance).  Used ONLY to decide whether the scenario is measured again, like the other timing clauses; the
 	// verdict is the driver's.
@@ -242,7 +246,7 @@ type c08obs struct {
 func (o c08obs) String() string {
 	return "class=" + o.class + " pkt=" + o.pkt + " first=" + o.first + " verbatim=" + o.verbatim + " resends=" + o.resends +
 		" prompt=" + o.prompt + " silent=" + o.silent + " goroutines=" + o.goroutines + " fds=" + o.fds +
-		" t0=0 arr=" + o.arr + " end=" + o.end + " d=" + itoa(o.retryMs)
+		" t0=" + itoa(o.t0Ms) + " arr=" + o.arr + " end=" + o.end + " d=" + itoa(o.retryMs)
 }
 
 // c08TolMs: the allowance (milliseconds) with which the model's bounds are evaluated on the raw numbers; the same
@@ -251,18 +255,24 @@ func (o c08obs) String() string {
 const c08TolMs = 1
 
 // c08TimedBad mirrors RV.Exchange.Timed.obsNotEarly / obsCountOk (d = max(Retry, 0) in ms; x/0 = 0).
-func c08TimedBad(arr []int, end, dms int) bool {
+func c08TimedBad(arr []int, end, dms, t0 int) bool {
 	if dms < 0 {
 		dms = 0
 	}
+	sub := func(a int) int { // (natural-number subtraction, as in the driver)
+		if a < t0 {
+			return 0
+		}
+		return a - t0
+	}
 	for i, a := range arr {
-		if i*dms > a+c08TolMs {
+		if i*dms > sub(a)+c08TolMs {
 			return true
 		}
 	}
 	q := 0
 	if dms > 0 {
-		q = (end + c08TolMs) / dms
+		q = (sub(end) + c08TolMs) / dms
 	}
 	return len(arr) > 1+q
 }
@@ -418,6 +428,23 @@ func runC08(sc *c08scenario) c08obs {
 	}
 
 	client := &radius.Client{Net: network, Retry: sc.retry, MaxPacketErrors: sc.maxErr, InsecureSkipVerify: sc.skip}
+	// the dial takes time in one scenario in three (0.6 x Retry, for intervals of 20..200 ms): the interval counts
+	// from the first transmission, not from the beginning of the call.  The hook's return is the clock origin `t0`.
+	var ctrlAt atomic.Int64
+	var dialDelay time.Duration
+	if sc.retry >= 20*time.Millisecond && sc.retry <= 200*time.Millisecond && (len(sc.reply)+len(sc.garbage)+sc.k)%3 == 0 {
+		dialDelay = sc.retry * 6 / 10
+	}
+	var callStart atomic.Int64
+	client.Dialer.Control = func(network, address string, c syscall.RawConn) error {
+		if dialDelay > 0 {
+			time.Sleep(dialDelay)
+		}
+		if st := callStart.Load(); st != 0 {
+			ctrlAt.Store(time.Now().UnixNano() - st)
+		}
+		return nil
+	}
 	var ctx context.Context
 	var cancel context.CancelFunc
 	switch sc.cancel {
@@ -458,9 +485,15 @@ func runC08(sc *c08scenario) c08obs {
 	if sc.cancel == "pre" || sc.cancel == "predeadline" {
 		cancelTime = start
 	}
+	callStart.Store(start.UnixNano())
+	var fdAtReturn atomic.Int64
+	fdAtReturn.Store(-1)
 	c08Go(func() {
 		p, err := client.Exchange(ctx, sc.req, addr)
-		done <- res{p, err, time.Now()}
+		at := time.Now()
+		// "after it returns its socket is closed": sampled by the caller itself, before anything else runs
+		fdAtReturn.Store(int64(c08CountFDs()))
+		done <- res{p, err, at}
 	})
 
 	// the peer's script
@@ -546,6 +579,7 @@ func runC08(sc *c08scenario) c08obs {
 	}
 	close(stop)
 	obs.class = c08Class(r.err)
+	obs.t0Ms = int(time.Duration(ctrlAt.Load()) / time.Millisecond)
 	endMs := int(r.at.Sub(start) / time.Millisecond)
 	obs.end = itoa(endMs)
 	if encErr != nil && obs.class == "parse-error" {
@@ -580,6 +614,10 @@ func runC08(sc *c08scenario) c08obs {
 			break
 		}
 		time.Sleep(time.Millisecond)
+	}
+	if n := int(fdAtReturn.Load()); fdOK && n >= 0 && n > baseFD && sc.peer != "vanish" && sc.peer != "deaf" {
+		// closed a little later (by another goroutine): at the return it was still open
+		fdOK = false
 	}
 	obs.goroutines = boolStr(gOK)
 	obs.fds = boolStr(fdOK)
@@ -669,7 +707,7 @@ func runC08(sc *c08scenario) c08obs {
 		}
 		obs.arr = strings.Join(parts, ",")
 	}
-	obs.timedBad = c08TimedBad(arrMs, endMs, obs.retryMs)
+	obs.timedBad = c08TimedBad(arrMs, endMs, obs.retryMs, obs.t0Ms)
 
 	if len(dgrams) > 0 {
 		obs.first = hx(dgrams[0])
@@ -880,7 +918,7 @@ func genC08(g *Gen, tier string, emit func(op string, args ...string)) {
 		auth := g.RandBytes(16)
 		copy(req.Authenticator[:], auth)
 		req.Attributes = toAttributes(reqAttrs)
-		reply, garbage := []byte{1}, g.RandBytes(g.Pick(1, 10, 19, 30))
+		reply, garbage := []byte{1}, g.RandBytes(g.Pick(0, 1, 10, 19, 30))
 		skip := false
 		if wire, err := req.Encode(); err == nil {
 			codes := replyCodesFor[reqCode]
